@@ -311,6 +311,13 @@ def template_members():
 
 
 def run_case(case):
+    if case.get("stale_mark"):
+        # a source whose recorded high-water mark is lower than its largest identifier (Numbers writes such documents): saved after an edit,
+        # no existing object may be overwritten by an object the save created
+        sys.path.insert(0, os.path.dirname(os.path.dirname(os.path.abspath(__file__))))
+        from contracts import C07_native
+        d = C07_native._stale_mark()
+        return {"detail": d} if d else {"ok": True, "count": 1}
     import random
     from numbers_parser import Document
     rnd = random.Random(case.get("seed", 0))
@@ -386,6 +393,7 @@ def main():
     if not big:
         fs = sorted(fs, key=lambda f: os.path.getsize(f) if os.path.isfile(f) else 10 ** 9)[:40]
     cases += [{"path": f} for f in fs]
+    cases.append({"built": "stale-mark", "stale_mark": True})
     return common.run(cases, run_case, key=lambda c: c.get("path") or c.get("built") + str(c.get("twice")) + str(c.get("package")))
 
 
